@@ -186,6 +186,8 @@ type result struct {
 	tg       *target
 	maxBurst int
 	complete bool
+
+	whileBacked int // backlog stress: requests sent while >= 100 frames were queued
 }
 
 // playing is a session in the playing state plus what the executor needs at the end.
@@ -211,9 +213,11 @@ func runRTSP(t evid.TB, pl *plan) *result {
 	e.tg = &target{in: sched.New(grace)}
 	var se playing
 	var tcp *rtspc.Client
-	dialogue := 0 // responses of the play dialogue
-	if pl.Transport == "ws" {
-		se = openWS(t, s, pl, path, e.exp, e.sentinelBytes)
+	dialogue := 0   // responses of the play dialogue
+	var raw *wsSess // ws-rtsp, or RTSP/TCP through the harness' own paced reader (backlog stress)
+	if pl.Transport == "ws" || pl.Backlog != nil {
+		raw = openWS(t, s, pl, path, e.exp, e.sentinelBytes)
+		se = raw
 	} else {
 		tcp = openRTSP(t, s, pl, path)
 		dialogue = 4
@@ -232,7 +236,9 @@ func runRTSP(t evid.TB, pl *plan) *result {
 	defer unregister(e.tg, addr)
 
 	res := &result{tg: e.tg}
-	if len(pl.Requests) > 0 {
+	if pl.Backlog != nil {
+		res.v, res.whileBacked = e.runBacklog(backlogIO{slow: raw.p, received: raw.p.count, answered: raw.responses})
+	} else if len(pl.Requests) > 0 {
 		res.v = e.runStress()
 	} else {
 		res.v = e.runSteps()
